@@ -118,7 +118,7 @@ class World:
                 'net_replies_ok', 'net_replies_error',
                 'net_same_ip_after_restart', 'svc_restarts',
                 'svc_restart_with_live_requests', 'svc_start_failed',
-                'svc_died', 'stale_requests_reclaimed', 'ip_reused',
+                'stale_requests_reclaimed', 'ip_reused',
                 'id_requested_again_before_delete_processed',
                 'order_permuted_listings'), 0)
             self.faults = dict.fromkeys((
